@@ -557,3 +557,103 @@ def deps(body: Body, operand, _seen=None):
 
     from_operand(operand)
     return out
+
+
+def slice_info(body: Body, operand):
+    """Backward data slice of an operand: (roots, via) where `via` is the set of callee declaration paths of all
+    calls whose result the operand can depend on."""
+    roots = set()
+    via = set()
+    seen = set()
+
+    def from_operand(o):
+        if not isinstance(o, dict):
+            return
+        if o.get("k") == "const":
+            roots.add(("const", o.get("str", o.get("text"))))
+        elif o.get("k") in ("copy", "move"):
+            from_place(o["p"])
+
+    def from_place(p):
+        l = p["l"]
+        if l == 1 and body.fact.get("closure"):
+            flds = [x for x in (p.get("proj") or []) if isinstance(x, dict) and "f" in x]
+            if flds:
+                roots.add(("upvar", flds[0]["i"], body.upvar_name(flds[0]["i"])))
+                return
+        if body.is_arg(l):
+            roots.add(("arg", l))
+            return
+        if l in seen:
+            return
+        seen.add(l)
+        ds = list(body.defs().get(l, []))
+        # field-wise / deref assignments into the local
+        for i in sorted(body.reach):
+            for s in body.blocks[i]["stmts"]:
+                if s["k"] == "assign" and s["p"]["l"] == l and s["p"].get("proj"):
+                    ds.append(("assign", i, -1, s["rv"]))
+        if not ds:
+            roots.add(("unknown", f"_{l}"))
+            return
+        for d in ds:
+            if d[0] == "assign":
+                from_rvalue(d[3])
+            elif d[0] == "call":
+                t = d[2]
+                via.add(Body.callee_decl(t) or "?")
+                for a in t["args"]:
+                    from_operand(a)
+            elif d[0] == "yield":
+                roots.add(("yield", d[1]))
+
+    def from_rvalue(rv):
+        for key in ("op", "a", "b"):
+            if key in rv:
+                from_operand(rv[key])
+        for o in rv.get("ops", []):
+            from_operand(o)
+        if "p" in rv:
+            from_place(rv["p"])
+
+    from_operand(operand)
+    return roots, via
+
+
+def cfg_cycles(body: Body):
+    """Strongly connected components (size>1 or self loop) of the reachable CFG."""
+    index = {}
+    low = {}
+    st = []
+    on = set()
+    out = []
+    cnt = [0]
+    import sys
+    sys.setrecursionlimit(20000)
+
+    def strong(v):
+        index[v] = low[v] = cnt[0]
+        cnt[0] += 1
+        st.append(v)
+        on.add(v)
+        for w in body.succ[v]:
+            if w not in index:
+                strong(w)
+                low[v] = min(low[v], low[w])
+            elif w in on:
+                low[v] = min(low[v], index[w])
+        if low[v] == index[v]:
+            comp = []
+            while True:
+                w = st.pop()
+                on.discard(w)
+                comp.append(w)
+                if w == v:
+                    break
+            if len(comp) > 1 or v in body.succ[v]:
+                out.append(sorted(comp))
+
+    for v in sorted(body.reach):
+        if v not in index:
+            strong(v)
+    return out
